@@ -8,6 +8,7 @@ import (
 	"github.com/dgraph-io/badger/v3"
 
 	"github.com/emitter-io/emitter/internal/message"
+	"github.com/emitter-io/emitter/internal/security"
 	vs "github.com/emitter-io/emitter/internal/verifspec"
 )
 
@@ -156,4 +157,31 @@ func post_storeFrame_tx(tx *badger.Txn, encoded []*badger.Entry, res0 error) boo
 	return n == len(encoded) && n == vs.TraceLen() && res0 == nil && vs.Forall(0, n, func(k int) bool {
 		return vs.TraceArg[*badger.Entry](k, 1) == encoded[k]
 	})
+}
+
+// ---------------------------------------------------------------------------------------------------------
+// Query (C06): the time window of a query - an `until` of zero means "no upper bound" (the largest representable
+// time), everything else is taken as given - and the query object handed to the scan carries the ssid, window,
+// continuation id and limit it was asked for.
+// @ verify window post=post_window props=C06
+func post_window(from, until time.Time, res0, res1 int64) bool {
+	f, u := vs.TraceFindNth("Time).Unix", 0), vs.TraceFindNth("Time).Unix", 1)
+	if f < 0 || u < 0 || vs.TraceCount("Time).Unix") != 2 || vs.TraceArg[time.Time](f, 0) != from || vs.TraceArg[time.Time](u, 0) != until {
+		return false
+	}
+	t1 := vs.TraceRet[int64](u, 0)
+	if t1 == 0 {
+		t1 = int64(security.MaxTime)
+	}
+	return res0 == vs.TraceRet[int64](f, 0) && res1 == t1
+}
+
+// @ assume window iface for=newLookupQuery
+// @ verify newLookupQuery post=post_newLookupQuery props=C06
+func post_newLookupQuery(ssid message.Ssid, from, until time.Time, startFromID message.ID, limit int, res0 lookupQuery) bool {
+	w := vs.TraceFind("window")
+	return w == 0 && vs.TraceLen() == 1 && vs.TraceArg[time.Time](w, 0) == from && vs.TraceArg[time.Time](w, 1) == until &&
+		res0.From == vs.TraceRet[int64](w, 0) && res0.Until == vs.TraceRet[int64](w, 1) && res0.Limit == limit &&
+		len(res0.Ssid) == len(ssid) && (len(ssid) == 0 || vs.OffsetOf(res0.Ssid, ssid) == 0) &&
+		len(res0.StartFromID) == len(startFromID) && (len(startFromID) == 0 || vs.OffsetIn(res0.StartFromID, startFromID) == 0)
 }
